@@ -122,6 +122,14 @@ func (c *RC) messageDecoder() *FuncInfo {
 		}
 	}
 	if bestN < 5 {
+		// no switch over the kinds (a table of constructors, say): the codec type that carries its body as an interface
+		for _, ct := range c.codecTypes() {
+			for i := 0; i < ct.st.NumFields(); i++ {
+				if it, ok := ct.st.Field(i).Type().Underlying().(*types.Interface); ok && it.NumMethods() == 0 {
+					return ct.dec
+				}
+			}
+		}
 		return nil
 	}
 	return best
